@@ -131,6 +131,7 @@ EvResult(ev) ==
       [] ev = "e_tup2" -> [k |-> "tuple", v |-> <<"v1", "v2">>]
       [] ev = "e_bin"  -> [k |-> "one",   v |-> <<"b1">>]
       [] ev = "e_tbin" -> [k |-> "tuple", v |-> <<"v1", "b1">>]
+      [] ev = "e_ddb"  -> [k |-> "one",   v |-> <<"ddb1">>]
       [] ev = "e_f"    -> [k |-> "one",   v |-> <<"f1">>]     \* falsy but meaningful results
       [] ev = "e_es"   -> [k |-> "one",   v |-> <<"es">>]
       [] ev = "e_el"   -> [k |-> "one",   v |-> <<"el">>]
@@ -139,7 +140,7 @@ EvResult(ev) ==
       [] ev = "e_raise"-> [k |-> "raise", v |-> <<>>]
       [] OTHER         -> [k |-> "unh",   v |-> <<>>]
 Pack(r) == IF r.k \in {"none", "unh"} THEN <<>> ELSE r.v
-BinaryTok(x) == x \in {"b1", "b2", "db1"}
+BinaryTok(x) == x \in {"b1", "b2", "db1", "ddb1"}
 HasBinary(q) == \E i \in 1..Len(q) : BinaryTok(q[i])
 
 (* client.py _handle_event (389-403): the client acknowledges every event   *)
